@@ -216,6 +216,136 @@ example : firstOcc [13, 10] (([97, 97, 97, 97, 97, 97, 97, 97] : Bytes) ++ [13, 
       [[97, 97, 97, 97, 97, 97, 97, 97, 13], [10, 111, 107, 13, 10]]).2 = [.limit, .frame [], .frame [111, 107]] := by
   decide +kernel
 
+-- ==== BEGIN generic framers ====
+section GenericFramers
+open GenericFr
+
+/-- one-go, limit-free frame-by-frame decoding of a stream of frames: one item per frame, nothing left -/
+theorem GenericFr.decode_frames (load : Bytes → LoadRes) (S : Stable load) (P : Progress load)
+    (fs : List Bytes) (hfs : ∀ f ∈ fs, IsFrame load f) :
+    decodeW (specU load) fs.flatten = ([], fs.map (frameItem load)) := by
+  obtain ⟨fs1, fs2, h', hsplit, hp, hheld, hdec⟩ := decode_prefix load S P fs hfs fs.flatten [] (by simp)
+  have hlen : fs.flatten.length = fs1.flatten.length + h'.length := by rw [hp]; simp
+  rw [hsplit] at hlen
+  simp only [List.flatten_append, List.length_append] at hlen
+  have hl2 : fs2.flatten.length = h'.length := by omega
+  have hfs2 : fs2 = [] ∧ h' = [] := by
+    rcases hheld with hh | ⟨f, fs', hf', hlt⟩
+    · subst hh
+      exact ⟨flatten_nil_of_pos fs2 (fun f hf => (hfs f (by simp [hsplit, hf])).pos)
+        (List.eq_nil_of_length_eq_zero hl2), rfl⟩
+    · rw [hf'] at hl2; simp at hl2; omega
+  rw [hdec, hfs2.2, hsplit, hfs2.1]; simp
+
+/-- copying consumer over a stream of frames (packets and bad frames mixed) inside the safe zone -/
+theorem GenericFr.copy_run_frames (load : Bytes → LoadRes) (S : Stable load) (P : Progress load) (limit m : Nat)
+    (fs : List Bytes) (hfs : ∀ f ∈ fs, IsFrame load f) (hsafe : ∀ f ∈ fs, f.length + m ≤ limit + 1)
+    (chunks : List Bytes) (hm : ∀ c ∈ chunks, c.length ≤ m) (hcut : chunks.flatten = fs.flatten) :
+    (Consumer.run GenericFr.init (feed load limit) Consumer.new chunks).2 = fs.map (frameItem load) ∧
+    Consumer.held (·.buf) (Consumer.run GenericFr.init (feed load limit) Consumer.new chunks).1 = [] := by
+  have R := feed_refines load limit
+  have hsim := Consumer.run_ref R chunks Consumer.new [] (Or.inl ⟨rfl, rfl⟩)
+  have href := refRun_frames load S P limit m chunks hm fs hfs hsafe [] (Or.inl rfl) (by simpa using hcut)
+  rw [href] at hsim
+  refine ⟨hsim.1, ?_⟩
+  rcases hsim.2 with ⟨hfr, hbuf⟩ | ⟨s, hfr, hbuf, hinv, _⟩
+  · simp [Consumer.held, hfr, hbuf]
+  · simp only [Consumer.held, hfr]
+    exact hinv.1
+
+/-- buffer-filling consumer over the same kind of stream -/
+theorem GenericFr.buffered_run_frames (load : Bytes → LoadRes) (S : Stable load) (P : Progress load)
+    (limit hint : Nat) (hlimit : 0 < limit) (hhint : 0 < hint)
+    (fs : List Bytes) (hfs : ∀ f ∈ fs, IsFrame load f) (hsafe : ∀ f ∈ fs, f.length + bufCap limit hint ≤ limit + 1)
+    (fills : List Bytes) (hcut : fills.flatten = fs.flatten) (r : BufConsumer GenericFr.State × List Item)
+    (hrun : BufConsumer.runFills GenericFr.init 0 (bufCap limit hint) (bfeed load limit) BufConsumer.new fills = some r) :
+    r.2 = fs.map (frameItem load) ∧ r.1.crashed = false := by
+  have hcap : 0 < bufCap limit hint := by unfold bufCap; omega
+  have F := feed_fits load S limit
+  rw [bfeed_eq] at hrun
+  have hsim := runFills_sim (bufCap limit hint) hcap F fills BufConsumer.new Consumer.new (sim_new _ _ _) r hrun
+  have hlen := runFills_len (bufCap limit hint) hcap F fills BufConsumer.new Consumer.new (sim_new _ _ _) r hrun
+  have hcopy := GenericFr.copy_run_frames load S P limit (bufCap limit hint) fs hfs hsafe fills hlen hcut
+  exact ⟨by rw [hsim.1, hcopy.1], hsim.2.1⟩
+
+/-- **C02 sentence 1, file-based framers.**  For every stream of frames (packets and well-delimited bad frames in any
+    order) safely within the limit — `|frame| + largest read ≤ limit + 1` on each path — any cutting into reads on the
+    copying path and any history of fitting fills on the buffered path deliver the same items: the limit-free
+    frame-by-frame decoding `decodeW (specU load)` of the stream, one item per frame, nothing retained.
+    (Deviation from DESIGN.md: the reference is the limit-free decoder, not `decodeAll spec` — the size check of this
+    framer looks at everything accumulated, so decoding the whole stream in one go is itself outside the safe zone.) -/
+theorem C02_generic_chunking_independent (load : Bytes → LoadRes) (S : Stable load) (P : Progress load)
+    (limit m hint : Nat) (hlimit : 0 < limit) (hhint : 0 < hint)
+    (fs : List Bytes) (hfs : ∀ f ∈ fs, IsFrame load f)
+    (hsafe : ∀ f ∈ fs, f.length + m ≤ limit + 1) (hsafeB : ∀ f ∈ fs, f.length + bufCap limit hint ≤ limit + 1)
+    (chunks : List Bytes) (hm : ∀ c ∈ chunks, c.length ≤ m) (hcut : chunks.flatten = fs.flatten)
+    (fills : List Bytes) (hcutB : fills.flatten = fs.flatten) (r : BufConsumer GenericFr.State × List Item)
+    (hrun : BufConsumer.runFills GenericFr.init 0 (bufCap limit hint) (bfeed load limit) BufConsumer.new fills = some r) :
+    (Consumer.run GenericFr.init (feed load limit) Consumer.new chunks).2 = (decodeW (specU load) fs.flatten).2 ∧
+    r.2 = (decodeW (specU load) fs.flatten).2 ∧
+    decodeW (specU load) fs.flatten = ([], fs.map (frameItem load)) := by
+  have hd := GenericFr.decode_frames load S P fs hfs
+  have h1 := GenericFr.copy_run_frames load S P limit m fs hfs hsafe chunks hm hcut
+  have h2 := GenericFr.buffered_run_frames load S P limit hint hlimit hhint fs hfs hsafeB fills hcutB r hrun
+  rw [hd]
+  exact ⟨h1.1, h2.1, rfl⟩
+
+/-- a parse error item (the tag byte of a delivered frame says so) -/
+def GenericFr.isParseError : Item → Bool
+  | .frame (t :: _) => t == badTag
+  | _ => false
+
+/-- **C02, one error per bad frame.**  A well-delimited frame the loader rejects, followed by anything: exactly one
+    parse-error item, which consumes exactly that frame — the remainder is exactly what follows it; and in every stream
+    of frames the number of parse errors delivered (any safe chunking) is the number of bad frames, every other frame
+    being delivered intact. -/
+theorem C02_generic_one_error_per_bad_frame (load : Bytes → LoadRes) (S : Stable load) (P : Progress load)
+    (limit m : Nat) :
+    (∀ f rest : Bytes, IsFrame load f → load f = .bad f.length →
+        specU load (f ++ rest) = .done (badTag :: f) rest ∧
+        ((f ++ rest).length ≤ limit → spec load limit (f ++ rest) = .done (badTag :: f) rest)) ∧
+    (∀ fs chunks : List Bytes, (∀ f ∈ fs, IsFrame load f) → (∀ f ∈ fs, f.length + m ≤ limit + 1) → (∀ c ∈ chunks, c.length ≤ m) →
+        chunks.flatten = fs.flatten →
+        (Consumer.run GenericFr.init (feed load limit) Consumer.new chunks).2 = fs.map (frameItem load) ∧
+        ((Consumer.run GenericFr.init (feed load limit) Consumer.new chunks).2.filter GenericFr.isParseError).length
+          = (fs.filter (fun f => decide (load f = .bad f.length))).length) := by
+  constructor
+  · intro f rest hf hbad
+    have h1 := specU_frame load S f rest hf
+    have hne : load f ≠ .ok f.length := by rw [hbad]; intro hc; cases hc
+    simp only [hne, if_false] at h1
+    exact ⟨h1, fun hle => by rw [spec_eq_specU load limit _ hle]; exact h1⟩
+  · intro fs chunks hfs hsafe hm hcut
+    have h1 := GenericFr.copy_run_frames load S P limit m fs hfs hsafe chunks hm hcut
+    refine ⟨h1.1, ?_⟩
+    rw [h1.1]
+    clear h1 hcut hm hsafe
+    induction fs with
+    | nil => rfl
+    | cons f fs ih =>
+      have hf := hfs f (by simp)
+      have ih' := ih (fun g hg => hfs g (by simp [hg]))
+      rcases hf.whole with hok | hbad
+      · have hnb : load f ≠ .bad f.length := by rw [hok]; intro hc; cases hc
+        simp only [List.map_cons, frameItem, hok, if_true, List.filter_cons, GenericFr.isParseError]
+        simpa [okTag, badTag] using ih'
+      · have hno : load f ≠ .ok f.length := by rw [hbad]; intro hc; cases hc
+        simp only [List.map_cons, frameItem, List.filter_cons, GenericFr.isParseError, hbad, decide_true]
+        simpa [badTag] using ih'
+
+/-- non-vacuity: a toy stream packet / bad frame (header 0xff) / packet, limit 8, reads of 2 bytes -/
+example : (∀ f ∈ ([[2, 7, 7], [255], [1, 9]] : List Bytes), IsFrameD toyLoad f ∧ f.length + 2 ≤ 8) ∧
+    toyLoad [255] = .bad 1 ∧
+    (Consumer.run GenericFr.init (feed toyLoad 8) Consumer.new [[2, 7], [7, 255], [1, 9]]).2
+      = [.frame (okTag :: [2, 7, 7]), .frame (badTag :: [255]), .frame (okTag :: [1, 9])] ∧
+    (BufConsumer.runFills GenericFr.init 0 (bufCap 8 1) (bfeed toyLoad 8) BufConsumer.new
+        [[2], [7], [7], [255], [1], [9]]).map (·.2)
+      = some [.frame (okTag :: [2, 7, 7]), .frame (badTag :: [255]), .frame (okTag :: [1, 9])] := by
+  decide +kernel
+
+end GenericFramers
+-- ==== END generic framers ====
+
 end EasyNet
 
 -- ==== BEGIN raw JSON framer ====
